@@ -32,6 +32,7 @@ import (
 	"github.com/tucats/ego/internal/server/tables/database"
 	"github.com/tucats/ego/internal/server/tables/scripting"
 	"github.com/tucats/ego/internal/sqlparse"
+	sqlast "github.com/tucats/ego/internal/sqlparse/ast"
 
 	_ "modernc.org/sqlite"
 )
@@ -50,9 +51,11 @@ type c15AuthzIn struct {
 }
 
 type c15Stmt struct {
-	OK     bool       `json:"ok"`
-	Kind   string     `json:"kind"`
-	Tables [][]string `json:"tables"`
+	OK       bool       `json:"ok"`
+	Kind     string     `json:"kind"`
+	Tables   [][]string `json:"tables"`
+	Updates  bool       `json:"updates"`  // INSERT ... ON CONFLICT ... DO UPDATE (read off the parse tree)
+	Replaces bool       `json:"replaces"` // INSERT OR REPLACE
 }
 
 type c15Pair struct {
@@ -182,6 +185,11 @@ func TestVerifC15Authz(t *testing.T) {
 
 		for _, u := range p.Tables() {
 			st.Tables = append(st.Tables, []string{u.Name, u.Usage.String()})
+		}
+
+		if ins, ok := p.Statement().(*sqlast.InsertStmt); ok {
+			st.Updates = ins.OnConflict != nil && len(ins.OnConflict.UpdateSet) > 0
+			st.Replaces = strings.EqualFold(ins.OrAction, "REPLACE")
 		}
 
 		out.Statements = append(out.Statements, st)
